@@ -45,6 +45,7 @@ ESC, AUTOEND = {"op": "Esc"}, {"op": "AutoEnd"}
 IDX, LOOPEND = {"op": "Idx"}, {"op": "LoopEnd"}
 CALL = {"op": "Call"}
 STR = {"op": "Str"}
+CALLG = {"op": "CallG"}
 
 
 def AUTO(b):
@@ -105,6 +106,8 @@ def unparse(ops, variant):
             out.append('{% import "' + o["m"] + '" as m' + (" with context" if o["ctx"] else "") + " %}")
         elif k == "Call":
             out.append("{{ m.mac() }}")
+        elif k == "CallG":
+            out.append("{{ m.gmac() }}")
         elif k == "Str":
             out.append("{{ m }}")
         elif k == "IncN":
@@ -116,11 +119,17 @@ def unparse(ops, variant):
     return "".join(out)
 
 
+def macs(sc):
+    """Body of the awaiting macro `gmac` of every module: markup, an await, the module's name."""
+    return {name: [T("<b>"), G, T(name), T("</b>")] for name in sc["mods"]}
+
+
 def sources(sc):
     """All template sources of a scenario: shared ones by name, and one main per task."""
     shared = {}
     for name, body in sc["mods"].items():
-        shared[name] = unparse(body, "ns") + "{% macro mac() %}[" + name + "{{ tg }}{{ me }}]{% endmacro %}"
+        shared[name] = (unparse(body, "ns") + "{% macro mac() %}[" + name + "{{ tg }}{{ me }}]{% endmacro %}"
+                        + "{% macro gmac() %}" + unparse(macs(sc)[name], "ns") + "{% endmacro %}")
     for name, body in sc["tmpls"].items():
         shared[name] = unparse(body, "any")
     shared["base"] = "{% block body %}{% endblock %}"
@@ -137,8 +146,9 @@ def sources(sc):
 # scenarios
 # ---------------------------------------------------------------------------
 
-def task(me, prog, tg="", variant="ns", wrap=False):
-    return {"me": me, "tg": tg, "prog": prog, "variant": variant, "wrap": wrap}
+def task(me, prog, tg="", variant="ns", wrap=False, html=False):
+    """html: the task's own template autoescapes (its name ends in .html, select_autoescape)."""
+    return {"me": me, "tg": tg, "prog": prog, "variant": variant, "wrap": wrap, "html": html}
 
 
 def core_scenarios():
@@ -192,6 +202,18 @@ def core_scenarios():
                                                                   task("C", P, variant=v, wrap=True)][:2 if v == "ns" else 3]})
     P = [IMP("M"), CALL, ME, G, STR]
     S.append({"cap": 50, "mods": M1, "tmpls": {}, "tasks": [task("A", P), task("B", P), task("C", P, tg="X")]})
+    # a shared imported macro whose body awaits, called by tasks with different autoescape modes
+    S.append({"cap": 50, "mods": {"M": []}, "tmpls": {}, "tasks": [
+        task("A", [IMP("M"), CALLG, ESC], html=True), task("B", [IMP("M"), CALLG, ESC])]})
+    S.append({"cap": 50, "mods": {"M": []}, "tmpls": {}, "tasks": [
+        task("A", [IMP("M"), AUTO(True), CALLG, AUTOEND, CALLG]), task("B", [IMP("M"), T("b"), CALLG, ME]),
+        task("C", [IMP("M"), CALLG], html=True)]})
+    S.append({"cap": 50, "mods": M1, "tmpls": {}, "tasks": [
+        task("A", [IMP("M"), CALLG, CALL], html=True, wrap=True), task("B", [IMP("M"), AUTO(False), CALLG, ESC, AUTOEND],
+                                                                         html=True)]})
+    P = [IMP("M"), ME, CALLG, ESC]
+    S.append({"cap": 50, "mods": {"M": []}, "tmpls": {}, "tasks": [task("A", P, html=True), task("B", P, html=True),
+                                                                    task("C", P)]})
     # a shared included template that switches autoescaping in its own evaluation context
     S.append({"cap": 50, "mods": {}, "tmpls": {"I": [AUTO(True), G, ESC, AUTOEND, ESC]}, "tasks": [
         task("A", [ESC, INCL("I"), ESC]), task("B", [AUTO(True), INCL("I"), G, ESC, AUTOEND])]})
@@ -229,7 +251,8 @@ def random_scenario(rnd):
         depth = 0
         autos = 0
         for _ in range(rnd.randint(3, 7)):
-            k = rnd.choice(["T", "G", "G", "Me", "Inc", "Show", "Imp", "Call", "Str", "IncN", "Incl", "Loop", "Auto", "Esc"])
+            k = rnd.choice(["T", "G", "G", "Me", "Inc", "Show", "Imp", "Call", "CallG", "CallG", "Str", "IncN", "Incl", "Loop",
+                            "Auto", "Esc"])
             if k == "T":
                 prog.append(T(rnd.choice("xyz")))
             elif k == "G":
@@ -246,6 +269,9 @@ def random_scenario(rnd):
                 imported = True
             elif k == "Call" and imported:
                 prog.append(CALL)
+            elif k == "CallG" and imported and gates[0] < maxg:
+                gates[0] += 1
+                prog.append(CALLG)
             elif k == "Str" and imported:
                 prog.append(STR)
             elif k == "IncN" and depth == 0:
@@ -266,7 +292,11 @@ def random_scenario(rnd):
             elif k == "Auto" and autos == 0:
                 b = rnd.random() < 0.6
                 prog.append(AUTO(b))
-                gate()
+                if imported and gates[0] < maxg and rnd.random() < 0.5:
+                    gates[0] += 1
+                    prog.append(CALLG)
+                else:
+                    gate()
                 prog.append(ESC)
                 if rnd.random() < 0.5:
                     gate()
@@ -275,7 +305,7 @@ def random_scenario(rnd):
             elif k == "Esc":
                 prog.append(ESC)
         tasks.append(task("ABC"[ti], prog, tg=rnd.choice(["", "", "", "X", "Y"]), variant=variant,
-                          wrap=(variant != "plain" and rnd.random() < 0.3)))
+                          wrap=(variant != "plain" and rnd.random() < 0.3), html=rnd.random() < 0.4))
     if rnd.random() < 0.3:  # two tasks render the same template object
         tasks[1] = dict(tasks[0], me="B")
     return {"cap": rnd.choice([0, 1, 1, 50]), "mods": mods, "tmpls": tmpls, "tasks": tasks}
@@ -294,6 +324,8 @@ def steps_bound(sc, t):
             n += mult
         elif k in ("Imp", "IncN"):
             n += mult * sc["mods"][o["m"]].count(G)
+        elif k == "CallG":
+            n += mult
         elif k == "Inc_":
             n += mult * sc["tmpls"][o["t"]].count(G)
     return n
@@ -322,8 +354,8 @@ def max_objects(sc):
 
 def spec_view(sc):
     """What TLC sees of a scenario (the concrete rendering variants are the harness' business)."""
-    return {"cap": sc["cap"], "mods": sc["mods"], "tmpls": sc["tmpls"],
-            "tasks": [{"me": t["me"], "tg": t["tg"],
+    return {"cap": sc["cap"], "mods": sc["mods"], "tmpls": sc["tmpls"], "macs": macs(sc),
+            "tasks": [{"me": t["me"], "tg": t["tg"], "html": bool(t.get("html")),
                        "prog": ([{"op": "Get", "t": "base"}] if t.get("wrap") else []) + t["prog"]}
                       for t in sc["tasks"]]}
 
@@ -347,7 +379,7 @@ class World:
     """One environment + precompiled templates for a scenario."""
 
     def __init__(self, sc):
-        from jinja2 import BaseLoader, Environment, TemplateNotFound
+        from jinja2 import BaseLoader, Environment, TemplateNotFound, select_autoescape
 
         shared, mains = sources(sc)
         self.sc = sc
@@ -369,16 +401,19 @@ class World:
                                                             lambda: True)
 
         self.codes = {}
-        self.env = Environment(enable_async=True, loader=CodeLoader(), cache_size=sc["cap"] if sc["cap"] else 0)
+        self.env = Environment(enable_async=True, loader=CodeLoader(), cache_size=sc["cap"] if sc["cap"] else 0,
+                               autoescape=select_autoescape(enabled_extensions=("html",), default=False,
+                                                            default_for_string=False))
         self.env.globals["gate"] = gate
         self.main_src = mains
         # tasks with the same source and template globals render the *same* Template object
         self.main_key = []
         self.main_code = {}
         for i, src in enumerate(mains):
-            key = (src, sc["tasks"][i]["tg"])
+            ext = ".html" if sc["tasks"][i].get("html") else ".txt"
+            key = (src, sc["tasks"][i]["tg"], ext)
             if key not in self.main_code:
-                self.main_code[key] = self.env.compile(src, f"main{i}", f"main{i}")
+                self.main_code[key] = self.env.compile(src, f"main{i}{ext}", f"main{i}{ext}")
             self.main_key.append(key)
         self.main_tmpl = {}
 
